@@ -596,6 +596,12 @@ def body_struct_keys(sh):
         for i, a in b:
             for o in inner_objects(struct_sig(a, "x")):
                 out.append((("inner", o), (a["kind"], a["rule"], a["nest"])))
+        # a NAMED payload / result type (method_design: decided by the shape) is also the whole body of the sibling method,
+        # with every attribute in it - also the ones the method itself maps to headers, cookies or parameters
+        named = hashlib.sha1(shape_key(sh).encode()).digest()[0] % 2 == 0
+        if named and len(attrs) >= 2 and not any(a["nest"] in WHOLE for a in attrs):
+            out.append((tuple((pfx + str(i + 1), struct_sig(a, pfx + str(i + 1)), a["mode"] == "required") for i, a in enumerate(attrs)),
+                        tuple(core.canon(a) for a in attrs)))
     return out
 
 
